@@ -106,3 +106,51 @@ package fp
 //@   prop C12 C20
 //@   ensures iterTakeStep(r, n, next)
 //
+// TakeWhile: abstract position a = pos-1 when an element is cached in fv,
+// pos otherwise; abstract HasNext = !breaking && a < len && p(E[a]).
+//
+//@ ghost
+//@ func iterTakeWhileStep[T any](r Iterator[T], p func(T) bool, next bool) bool {
+//@ 	it := r.TakeWhile(p)
+//@ 	verifspec.Havoc(it)
+//@ 	fv := verifspec.Cell[Option[T]](it, "fv")
+//@ 	breaking := verifspec.Cell[bool](it, "breaking")
+//@ 	p0 := verifspec.IterPos(r)
+//@ 	verifspec.Assume(!fv.IsDefined() || (!breaking && p0 >= 1 && verifspec.Eq(fv.Get(), verifspec.IterAt[T](r, p0-1)) && p(fv.Get())))
+//@ 	a := p0
+//@ 	if fv.IsDefined() {
+//@ 		a = p0 - 1
+//@ 	}
+//@ 	want := !breaking && a < verifspec.IterLen(r) && p(verifspec.IterAt[T](r, a))
+//@ 	h1 := it.HasNext()
+//@ 	p1 := verifspec.IterPos(r)
+//@ 	fv1 := verifspec.Cell[Option[T]](it, "fv")
+//@ 	b1 := verifspec.Cell[bool](it, "breaking")
+//@ 	h2 := it.HasNext()
+//@ 	if h1 != want || h2 != want || verifspec.IterPos(r) != p1 || p1 > a+1 || p1 < p0 {
+//@ 		return false
+//@ 	}
+//@ 	if want && !(p1 == a+1 && fv1.IsDefined() && verifspec.Eq(fv1.Get(), verifspec.IterAt[T](r, a)) && !b1) {
+//@ 		return false
+//@ 	}
+//@ 	if !want && fv1.IsDefined() {
+//@ 		return false
+//@ 	}
+//@ 	if breaking && !b1 {
+//@ 		return false
+//@ 	}
+//@ 	if !next {
+//@ 		return true
+//@ 	}
+//@ 	if !want {
+//@ 		return Panics(it.Next()) && verifspec.IterPos(r) == p1
+//@ 	}
+//@ 	v := it.Next()
+//@ 	return Eq(v, verifspec.IterAt[T](r, a)) && verifspec.IterPos(r) == a+1 && !verifspec.Cell[Option[T]](it, "fv").IsDefined() && !verifspec.Cell[bool](it, "breaking")
+//@ }
+//@ end
+//
+//@ lemma iterTakeWhile[T any](r Iterator[T], p func(T) bool, next bool)
+//@   prop C12 C20
+//@   ensures iterTakeWhileStep(r, p, next)
+//
